@@ -24,8 +24,11 @@
    and 0 for every other one — so that a death releases the lock when and only when it was held there — is again a
    theorem (Props: C15_undo_adjustment), not built into the step relation.
 
-   tryCleanUser (between the existence check and the lock, only when no free slot is visible) is not
-   part of this model: the harness keeps .fresh recent so that it is a no-op (expiry belongs to C03). *)
+   tryCleanUser (between the existence check and the lock, only when no free slot is visible) is not a step of the
+   interleaving relation above; it is modelled at the end of this file as a function on the account table
+   ([expire_value], [sweep_kills], [sweep]: the comparison of the sweeping process' clock with the stamps other requests
+   stored) together with a sequential registration machine [sw_step] that runs it where SetupNewUser does; the harness
+   keeps .fresh recent in every op but op 6 (model op 3), where the sweep is what is exercised. *)
 From Verif Require Import Base.Common Gen.Consts_default.
 
 Definition lower (ch : Z) : Z := if (65 <=? ch) && (ch <=? 90) then ch + 32 else ch.
@@ -250,9 +253,102 @@ Definition run_with (procs ids tab0 sch : list Z) : list Z :=
                     ++ [-1] ++ obs ++ [-1; Z.of_nat (semv s)]
   end.
 
+(* ------------------------------------------------------------------ the expiry sweep on a full table *)
+(* ptt/register.go computeUserExpireValue / checkAndExpireAccount / tryCleanUser. [now] is types.NowTS() of the
+   registering process, [ll] the LastLogin another request stored: both are Time4 = int32, the difference is taken in
+   int32 ([wrap32]) and divided with Go's truncating division ([Z.quot]); nothing orders [ll] and [now] - a stamp written
+   while the clock was ahead (clock stepped back since, request served by another host) is LATER than [now].
+   KEEP_DAYS_* are configuration variables of ptttype (defaults below; the driver reports the values in force). *)
+Definition KEEP_DAYS_REGGED : Z := 120.
+Definition KEEP_DAYS_UNREGGED : Z := 15.
+Definition ID_GUEST : list Z := [103; 117; 101; 115; 116].
+Definition ID_REGNEW : list Z := [110; 101; 119].
+Definition wrap32 (z : Z) : Z := (z + 2147483648) mod 4294967296 - 2147483648.
+
+Definition expire_value (now : Z) (id : list Z) (level ll : Z) : Z :=
+  if is_empty id || negb (Z.land level ptttype.PERM_XEMPT =? 0) || eqbl id ID_GUEST then 999999
+  else let m := Z.quot (wrap32 (now - ll)) 60 in
+       if eqbl id ID_REGNEW then 30 - m
+       else if negb (Z.land level (ptttype.PERM_LOGINOK + ptttype.PERM_VIOLATELAW) =? 0) then KEEP_DAYS_REGGED * 24 * 60 - m
+       else KEEP_DAYS_UNREGGED * 24 * 60 - m.
+
+(* checkAndExpireAccount(uid, user, CLEAN_USER_EXPIRE_RANGE_MIN) calls killUser *)
+Definition sweep_kills (now : Z) (id : list Z) (level ll : Z) : bool :=
+  let v := expire_value now id level ll in (v <? 0) && (ptttype.CLEAN_USER_EXPIRE_RANGE_MIN <? - v).
+
+(* one account: id, user level, LastLogin. killUser empties the index entry and writes an all-zero record. *)
+Definition srec : Type := (list Z * Z * Z)%type.
+Definition srec_id (r : srec) : list Z := fst (fst r).
+Definition srec_empty : srec := ([], 0, 0).
+Definition sweep_rec (now : Z) (r : srec) : srec :=
+  let '(id, lv, ll) := r in if sweep_kills now id lv ll then srec_empty else r.
+(* tryCleanUser walks uid 2 .. MAX_USERS: slot 0 (uid 1, SYSOP) is not looked at *)
+Definition sweep (now : Z) (t : list srec) : list srec :=
+  match t with [] => [] | r0 :: rest => r0 :: map (sweep_rec now) rest end.
+
+Definition sw_lookup (id : list Z) (t : list srec) : bool :=
+  existsb (fun r => negb (is_empty (srec_id r)) && ci_eqb (srec_id r) id) t.
+Fixpoint sw_free (t : list srec) (k : nat) : option nat :=
+  match t with [] => None | r :: t' => if is_empty (srec_id r) then Some k else sw_free t' (S k) end.
+Fixpoint sw_set {A} (t : list A) (k : nat) (r : A) : list A :=
+  match t, k with
+  | [], _ => []
+  | _ :: t', O => r :: t'
+  | x :: t', S k' => x :: sw_set t' k' r
+  end.
+
+(* SetupNewUser with the sweep, one call = up to 4 controller steps (thread state: 0 not started, 1 at reg.checked,
+   2 at reg.locked, 3 at reg.beforeUnlock (slot+1), 4 returned nil (slot+1), 5 returned error). [stale] = .fresh is
+   missing or older than an hour; the first sweep touches it. A call leaves reg.checked only while nobody is inside
+   the lock (the controller of op 6 schedules it that way), so its sweep and its semop are one step here. *)
+Definition sw_state : Type := (list srec * bool * list (Z * Z))%type.
+Definition sw_step (now : Z) (ids : list (list Z)) (lls : list Z) (s : sw_state) (t : nat) : option sw_state :=
+  let '(tab, stale, pcs) := s in
+  let id := nth t ids [] in
+  let '(c, v) := nth t pcs (9, 0) in
+  if c =? 0 then Some (tab, stale, sw_set pcs t (if sw_lookup id tab then (5, E_EXISTS) else (1, 0)))
+  else if c =? 1 then
+    if existsb (fun p => (fst p =? 2) || (fst p =? 3)) pcs then None
+    else let run := stale && match sw_free tab 0 with None => true | Some _ => false end in
+         Some (if run then sweep now tab else tab, if run then false else stale, sw_set pcs t (2, 0))
+  else if c =? 2 then
+    if sw_lookup id tab then Some (tab, stale, sw_set pcs t (5, E_EXISTS))
+    else match sw_free tab 0 with
+         | None => Some (tab, stale, sw_set pcs t (5, E_NOSLOT))
+         | Some k => Some (sw_set tab k (id, ptttype.PERM_DEFAULT, nth t lls 0), stale, sw_set pcs t (3, Z.of_nat (S k)))
+         end
+  else if c =? 3 then Some (tab, stale, sw_set pcs t (4, v))
+  else None.
+
+Fixpoint sw_run (now : Z) (ids : list (list Z)) (lls : list Z) (sch : list Z) (s : sw_state) : option sw_state :=
+  match sch with
+  | [] => Some s
+  | z :: r => match sw_step now ids lls s (Z.to_nat z) with Some s' => sw_run now ids lls r s' | None => None end
+  end.
+
+Fixpoint zip3 (a : list (list Z)) (b c : list Z) : list srec :=
+  match a, b, c with
+  | x :: a', y :: b', z :: c' => (x, y, z) :: zip3 a' b' c'
+  | _, _, _ => []
+  end.
+
+(* case [[3]; [now; fresh]; ids of the table; levels; LastLogin stamps; ids of the threads; stamps of the requests; order of the steps]
+   result: 0 :: per thread (error class, uid) ++ [-1] ++ ids of the final table ++ [-1] ++ LastLogin - now per slot (0 for a free slot) *)
+Definition run_sweep (now fresh : Z) (tids tlv tll ids lls sch : list Z) : list Z :=
+  let tab := zip3 (dec_strs (length tids) tids) tlv tll in
+  let idl := dec_strs (length ids) ids in
+  match sw_run now idl lls sch (tab, negb (fresh =? 2), map (fun _ => (0, 0)) idl) with
+  | None => [ST_ERR; 7]
+  | Some (tab', _, pcs) =>
+      ST_OK :: flat_map (fun p => if fst p =? 4 then [0; snd p] else if fst p =? 5 then [snd p; 0] else [-2; fst p]) pcs ++ [-1]
+      ++ flat_map (fun r => lenZ (srec_id r) :: srec_id r) tab' ++ [-1]
+      ++ map (fun r => if is_empty (srec_id r) then 0 else snd r - now) tab'
+  end.
+
 Definition run_case (args : list (list Z)) : list Z :=
   match args with
   | [[1]; ids; tab0; sch] => run_with [] ids tab0 sch
   | [[2]; procs; ids; tab0; sch] => run_with procs ids tab0 sch
+  | [[3]; [now; fresh]; tids; tlv; tll; ids; lls; sch] => run_sweep now fresh tids tlv tll ids lls sch
   | _ => [ST_BADCASE]
   end.
